@@ -106,7 +106,9 @@ Print Assumptions C05_typed_atom_unit_cost.
 (* ---- cost of the modelled resolver (Robust/ResolveCost.v) ----
    [resolve_c w e v]: [resolve e v] with a step counter.  1 step per node visited (a number, date or IP network is ONE
    step), [vsize] of a parameter value / mapping leaf per Ref, Fn::ImportValue, Fn::FindInMap, Fn::Sub placeholder that
-   copies it, the length of an Fn::Sub text for its scan, and, times the weight [w], the size of the intermediate text
+   copies it, 1 + the key's characters per entry that Fn::FindInMap's case-blind fallback scans when a key "true" / "false" is
+   not in a mapping level as written (library `_mapping_get`, repair of F31; at most the keys of the two levels, so the bounds
+   below stand unchanged), the length of an Fn::Sub text for its scan, and, times the weight [w], the size of the intermediate text
    that Fn::Join produces / Fn::Split consumes / Fn::Base64 encodes / an Fn::Sub variable inserts.
    [w = 1]: full cost.  [w = 0]: walk cost.  [tsize]: nodes + characters of the expression; [psize e]: nodes + characters
    of all parameter values and mappings; [refs v]: the places of v that can copy a parameter value. *)
@@ -114,6 +116,18 @@ Theorem C05_resolve_cost_same_result : forall (w : nat) (e : env) (v : value),
   fst (resolve_c w e v) = resolve e v.
 Proof. exact resolve_c_result. Qed.
 Print Assumptions C05_resolve_cost_same_result.
+(* the charge of one Fn::FindInMap: the scan(s) of the fallback plus the copy of the leaf -- never more than the environment *)
+Theorem C05_find_in_map_cost_le : forall (e : env) (m k1 k2 : value), (do_find_in_map_cost e m k1 k2 <= 1 + psize e)%nat.
+Proof. exact do_find_in_map_cost_le. Qed.
+Print Assumptions C05_find_in_map_cost_le.
+(* Mappings {"M": {"a": {}, "True": {"k": "yes"}}}: the key "true" is not there as written, the scan visits "a" (2) and "True" (5) *)
+Example C05_ex_find_in_map_scan_cost :
+  let e := {| params := []; mappings := [([77], VDict [([97], VDict []); ([84;114;117;101], VDict [([107], VStr [121;101;115])])])];
+              conds := fun _ => Ok false |} in
+  do_find_in_map e (VStr [77]) (VStr S_true) (VStr [107]) = Ok (VStr [121;101;115]) /\
+  do_find_in_map_cost e (VStr [77]) (VStr S_true) (VStr [107]) = 8%nat /\
+  do_find_in_map_cost e (VStr [77]) (VStr [97]) (VStr [107]) = 1%nat /\ psize e = 16%nat.
+Proof. cbv zeta. repeat split; vm_compute; reflexivity. Qed.
 (* multiplicative because every Ref / placeholder may copy a whole parameter value (C05_example_cost_multiplicative) *)
 Theorem C05_resolve_cost_bound : forall (w : nat) (e : env) (v : value),
   w = 0%nat \/ light v = true ->
